@@ -393,7 +393,7 @@ func (vt *Model) el(ps int) {
 	// Erases from the beginning of the line to the cursor, including the
 	// cursor position. Line attribute is not affected.
 	case 1:
-		for col := column(0); col <= vt.cursor.col; col += 1 {
+		for col := column(0); col <= vt.cursor.col && col < column(vt.width()); col += 1 {
 			vt.activeScreen[r][col].erase(vt.cursor.Style.Background)
 		}
 
@@ -528,7 +528,7 @@ func (vt *Model) ech(ps int) {
 	}
 
 	for i := column(0); i < column(ps); i += 1 {
-		if vt.cursor.col+i == column(vt.width()) {
+		if vt.cursor.col+i >= column(vt.width()) {
 			return
 		}
 		vt.activeScreen[vt.cursor.row][vt.cursor.col+i].erase(vt.cursor.Style.Background)
@@ -635,12 +635,12 @@ func (vt *Model) hpr(ps int) {
 func (vt *Model) rep(ps int) {
 	vt.lastCol = false
 	col := vt.cursor.col
-	if col == 0 {
+	if col == 0 || col > column(vt.width()) {
 		return
 	}
 	ch := vt.activeScreen[vt.cursor.row][col-1]
 	for i := 0; i < ps; i += 1 {
-		if col+column(i) == vt.margin.right {
+		if col+column(i) >= vt.margin.right {
 			return
 		}
 		vt.activeScreen[vt.cursor.row][vt.cursor.col+column(i)].Character = ch.Character
